@@ -135,6 +135,14 @@ def run(chk):
                     continue
                 e = p.end[1]
                 ok = e is not None and (U(e) == first or (isinstance(e, ast.Call) and isinstance(e.func, ast.Name) and e.func.id == opn and e.args and U(e.args[0]) == first))
+                if not ok:
+                    # deferring to the write-back fallback (which hands the written destinations back) with the operand as the written argument: read the
+                    # return statement itself, the path engine may have inlined the helper
+                    from ..handrules import schema_writeback as _sw
+                    for rs in [x for x in ast.walk(h.fn) if isinstance(x, ast.Return) and x.lineno == p.end[2] and isinstance(x.value, ast.Call) and isinstance(x.value.func, ast.Name)]:
+                        if len(rs.value.args) >= 2 and U(rs.value.args[1]) == first:
+                            sw_ = _sw(repo, rs.value.func.id)
+                            ok = sw_ is not None and sw_["returns"] == "mapped" and bool(sw_["copies"])
                 chk.require("C05.R16", f"{h.mi.rel}:{p.end[2]}", ok, f"{h.name} (registered for in-place {ip}) returns its first operand `{first}` (`{U(e)[:60] if e is not None else None}`)", h.name, f"in-place {ip} returns a fresh tensor",
                             f"x.{ip[0].split('.')[1]}(...) on a quantized x: x (and every alias of it) keeps its old value, only the returned tensor is updated")
     chk.floor("C05.R16", n_ip, 1, "handlers registered for in-place ops")
@@ -280,7 +288,8 @@ def ownership_rule(chk, hs, rule="C05.R18", views=True):
     # handlers (views) are told apart: their payload is a view of the operand's, so a shared scale is what keeps both consistent - the
     # defect there is that a per-tensor scale cannot change for the written part only
     from ..hand import MOVE_OPS as _MOVES
-    _ALIAS = {"aten.select", "aten.slice", "aten.transpose", "aten.view", "aten.unsqueeze", "aten.permute", "aten.expand", "aten.t", "aten.squeeze", "aten._unsafe_view", "aten.narrow", "aten.unbind", "aten.split", "aten.detach", "aten.alias"}
+    _ALIAS = {"aten.select", "aten.slice", "aten.transpose", "aten.view", "aten.unsqueeze", "aten.permute", "aten.expand", "aten.t", "aten.squeeze", "aten._unsafe_view", "aten.narrow", "aten.unbind", "aten.split", "aten.detach", "aten.alias",
+              "aten.diagonal", "aten.unfold", "aten.as_strided", "aten.split_with_sizes", "aten.movedim", "aten.swapaxes", "aten.swapdims", "aten.view_as", "aten.reshape", "aten.flatten", "aten.unflatten", "aten.chunk", "aten.tensor_split", "aten.hsplit", "aten.vsplit", "aten.mT", "aten.mH", "aten.adjoint"}
     wnames = sorted({h.name for h, _ in writers})
     for h, nd in writers:
         chk.ok(rule, f"{h.mi.rel}:{nd.lineno}", f"{h.name} writes a scale in place (`{U(nd)[:50]}`): every handler result must own its scale ({len(sharers)} handler(s) examined hand their operand's)")
